@@ -3123,6 +3123,16 @@ class Interp:
             return [(mk_func('SQRT', args[0]), st)]
         if name in ('abs', 'math.fabs', 'mpmath.fabs') and num():
             return [(mk_func('ABS', args[0]), st)]
+        if name in ('mpmath.sign', 'numpy.sign') and len(args) == 1 and num():
+            # -1, 0 or +1: one case per sign (sign(0) = 0 is its own case)
+            res = []
+            for neg_, s2 in self.branch(norm_cmp('<', args[0], Sym.const(0)), st):
+                if neg_:
+                    res.append((Sym.const(-1), s2))
+                    continue
+                for zero_, s3 in self.branch(norm_cmp('==', args[0], Sym.const(0)), s2):
+                    res.append((Sym.const(0) if zero_ else Sym.const(1), s3))
+            return res
         if name == 'math.copysign' and len(args) == 2 and num(0) and num(1):
             # |x| with the sign of y (y = 0 counts as positive: integer zero has no sign bit)
             res = []
